@@ -1,1 +1,4 @@
-// Verification accessors for src/fft_filter.rs (child module of it; included under cfg(rustradio_verif)).
+// Verification accessors for src/fft_filter.rs (child module; cfg(rustradio_verif)).
+pub fn calc_fft_size(from: usize) -> usize {
+    super::calc_fft_size(from)
+}
